@@ -365,6 +365,9 @@ class Dyn(Calls):
             return VStr(z3.Function("enum_name", ObjSort, z3.StringSort())(base.t))
         if isinstance(base, VMatch):
             return VMethod(base, name)
+        if isinstance(base, VObj) and (base.cls, name) in getattr(self.reg, "attr_hooks", {}):
+            # assumed model of a library object's attribute (e.g. pathlib.Path.parent): a function of the object
+            return self.reg.attr_hooks[(base.cls, name)](self, base)
         if isinstance(base, VSuper):
             for m, c in self.src.class_bases(base.module, base.cls):
                 fi = self.src.find_method(m, c, name)
